@@ -260,97 +260,98 @@ def _take_other(rng, tree, other, ops):
 
 
 # ------------------------------------------------------------------ realisation
-def make_branch(path, fmt):
+def make_tree(path, fmt):
     from breezy.controldir import ControlDir, format_registry
     os.makedirs(path, exist_ok=True)
-    cd = ControlDir.create(path, format=format_registry.make_controldir(fmt))
-    cd.create_repository()
-    return cd.create_branch()
+    return ControlDir.create_standalone_workingtree(path, format=format_registry.make_controldir(fmt))
 
 
-def commit_state(branch, rv, by_id):
-    """commit abstract revision `rv` (tree state) on top of its parents with a TransformPreview"""
+def _apply_state(wt, old, new):
+    """transform the working tree from abstract state `old` to `new` (file ids kept)"""
     from breezy.transform import ROOT_PARENT
-    repo = branch.repository
-    parents = rv["parents"]
-    left = parents[0] if parents else NULL
-    if left == NULL:
-        branch.set_last_revision_info(0, NULL)
-    else:
-        branch.generate_revision_history(left)
-    old = by_id[left]["tree"] if parents else {}
-    new = rv["tree"]
-    basis = repo.revision_tree(left)
-    with basis.lock_read():
-        tt = basis.preview_transform()
-        try:
-            tid = {}
-            for fid in old:
-                tid[fid] = tt.trans_id_file_id(fid)
-            # new entries, parents first
-            opaths = tree_paths(new)
-            for fid in sorted((f for f in new if f not in old), key=lambda f: opaths[f].count("/") if opaths[f] else -1):
-                p, name, kind, data, ex = new[fid]
-                ptid = ROOT_PARENT if p is None else tid[p]
-                if kind == "directory":
-                    tid[fid] = tt.new_directory(name, ptid, fid)
-                elif kind == "file":
-                    tid[fid] = tt.new_file(name, ptid, [data], fid, executable=ex)
+    tt = wt.transform()
+    try:
+        tid = {}
+        for fid in old:
+            tid[fid] = tt.trans_id_file_id(fid)
+        npaths = tree_paths(new)
+        for fid in sorted((f for f in new if f not in old), key=lambda f: npaths[f].count("/") if npaths[f] else -1):
+            p, name, kind, data, ex = new[fid]
+            ptid = ROOT_PARENT if p is None else tid[p]
+            if p is None:
+                tid[fid] = tt.root
+                tt.version_file(tt.root, file_id=fid)
+            elif kind == "directory":
+                tid[fid] = tt.new_directory(name, ptid, fid)
+            elif kind == "file":
+                tid[fid] = tt.new_file(name, ptid, [data], fid, executable=ex)
+            else:
+                tid[fid] = tt.new_symlink(name, ptid, data, fid)
+        for fid in old:
+            if fid not in new:
+                tt.unversion_file(tid[fid])
+                tt.delete_contents(tid[fid])
+                continue
+            o, n = old[fid], new[fid]
+            if (o[0], o[1]) != (n[0], n[1]):
+                tt.adjust_path(n[1], tid[n[0]], tid[fid])
+            if (o[2], o[3]) != (n[2], n[3]):
+                tt.delete_contents(tid[fid])
+                if n[2] == "file":
+                    tt.create_file([n[3]], tid[fid])
+                elif n[2] == "symlink":
+                    tt.create_symlink(n[3], tid[fid])
                 else:
-                    tid[fid] = tt.new_symlink(name, ptid, data, fid)
-            for fid in old:
-                if fid not in new:
-                    tt.unversion_file(tid[fid])
-                    tt.delete_contents(tid[fid])
-                    continue
-                o, n = old[fid], new[fid]
-                if (o[0], o[1]) != (n[0], n[1]):
-                    tt.adjust_path(n[1], tid[n[0]], tid[fid])
-                if (o[2], o[3]) != (n[2], n[3]):
-                    tt.delete_contents(tid[fid])
-                    if n[2] == "file":
-                        tt.create_file([n[3]], tid[fid])
-                    elif n[2] == "symlink":
-                        tt.create_symlink(n[3], tid[fid])
-                    else:
-                        tt.create_directory(tid[fid])
-                if n[2] == "file" and (o[4] != n[4] or o[2] != "file"):
-                    tt.set_executability(n[4], tid[fid])
-            tt.commit(branch, rv["msg"], merge_parents=parents[1:] or None, timestamp=rv["ts"], timezone=rv["tz"],
-                      committer=rv["committer"], revprops=dict(rv["props"]), revision_id=rv["rid"])
-        finally:
-            tt.finalize()
-    return rv["rid"]
+                    tt.create_directory(tid[fid])
+            if n[2] == "file" and (o[4] != n[4] or o[2] != "file"):
+                tt.set_executability(n[4], tid[fid])
+        tt.apply(no_conflicts=True)
+    finally:
+        tt.finalize()
 
 
-def _patch_preview():
-    """History building only: PreviewTree.get_symlink_target looks the *new* path up in the base tree when
-    the transform did not touch the link's content, so committing a preview that renames a symlink (or a
-    directory above one) raises NoSuchFile.  Use the link's old path instead (side observation, reported)."""
-    from breezy.bzr import transform as bt
-    cls = bt.InventoryPreviewTree
-    if getattr(cls, "_verif_c40", False):
-        return
-    orig = cls.get_symlink_target
+class Builder:
+    """realises an abstract history in one standalone working tree: the tree's content is moved from
+    state to state with a TreeTransform, the parents are set explicitly, then the tree is committed"""
 
-    def get_symlink_target(self, path):
-        file_id = self.path2id(path)
-        if file_id is not None and not self._content_change(file_id):
-            base = self._transform._tree
-            return base.get_symlink_target(base.id2path(file_id))
-        return orig(self, path)
-    cls.get_symlink_target = get_symlink_target
-    cls._verif_c40 = True
+    def __init__(self, path, fmt="2a"):
+        self.wt = make_tree(path, fmt)
+        self.cur = None          # abstract state of the working tree; None = freshly initialised
+        self.by_id = {}
+
+    def commit(self, rv):
+        wt = self.wt
+        parents = rv["parents"]
+        with wt.lock_write():
+            if self.cur is None:
+                root_id = wt.path2id("")
+                self.cur = {root_id: (None, "", "directory", None, False)}
+                if root_id != ROOT_ID:
+                    wt.set_root_id(ROOT_ID)
+                    self.cur = {ROOT_ID: (None, "", "directory", None, False)}
+            if parents:
+                wt.branch.generate_revision_history(parents[0])
+            else:
+                wt.branch.set_last_revision_info(0, NULL)
+            wt.set_parent_ids(list(parents), allow_leftmost_as_ghost=False)
+            rv["parents"] = list(wt.get_parent_ids())       # parents that are ancestors of others are dropped
+            # through the root-only state: no renames inside one transform (the commit still sees them by file id)
+            rootonly = {ROOT_ID: (None, "", "directory", None, False)}
+            if self.cur != rootonly:
+                _apply_state(wt, self.cur, rootonly)
+            _apply_state(wt, rootonly, rv["tree"])
+            self.cur = dict(rv["tree"])
+            wt.commit(rv["msg"], rev_id=rv["rid"], timestamp=rv["ts"], timezone=rv["tz"],
+                      committer=rv["committer"], revprops=dict(rv["props"]), allow_pointless=True)
+        self.by_id[rv["rid"]] = rv
+        return rv["rid"]
 
 
 def build_history(path, revs, fmt="2a"):
-    _patch_preview()
-    branch = make_branch(path, fmt)
-    by_id = {r["rid"]: r for r in revs}
-    with branch.lock_write():
-        for rv in revs:
-            commit_state(branch, rv, by_id)
-    return branch
+    b = Builder(path, fmt)
+    for rv in revs:
+        b.commit(rv)
+    return b.wt.branch
 
 
 def real_tree_state(tree):
